@@ -193,7 +193,7 @@ func TestC26(t *testing.T) {
 	defer r.Finish()
 	r.Rule("UTXO sets of 1-40 outputs (6 value shapes, p2sh / p2wsh mix, occasional same-txid outputs) x fee rate x min-change x sequences of 1-15 withdrawals through the real chooseUtxos / makeBtcTx; distinct = (set size, value shape hash, amount bucket, outcome, #selected)")
 	r.Assume("BtcTxParam is written through a verif export instead of the m-of-n signed SetBtcTxParam call; UTXO records are written through the real putUtxos")
-	nSeq := r.N(30, 300)
+	nSeq := r.N(30, 200)
 	workers := 12
 	var wg sync.WaitGroup
 	jobs := make(chan int)
